@@ -114,6 +114,66 @@ PROPS = {
         "assumptions": ["stack exhaustion, allocation failure and real-time behaviour are outside the model; the watchdog limit is 10 s per input"],
         "timeout": 3600,
     },
+    "C03": {
+        "property_module": "AutosarVerif.Properties.C03",
+        "modules": ["AutosarVerif.Properties.C03"],
+        "closure": ['AutosarVerif.Properties.C03', 'AutosarVerif.Lemmas.World', 'AutosarVerif.Lemmas.WorldOps'],
+        "scenario": "world",
+        "scenario_args": ['--prop', 'C03'],
+        "rule": 'operation histories on the real library (PROTOCOL.md): `reset`, a template build (packages from the name universe a a1 a10 a1b a2 pkg1 pkg10 b, nested packages, ELEMENTS with several kinds, mixed content, references to existing / dangling / future paths), then 20-60 (thorough up to 200) weighted random requests with mostly-valid and deliberately invalid arguments (stale handles, wrong kinds, bad positions, duplicates, descendants as destination), `dump` after every state-changing request; kinds basic / sort / copy / files. Every request is answered by the real library and by the Lean world model and compared verbatim (dumps include every parent field, attribute, value, comment, local file set, the whole path index and every key of the reverse reference map via hook H1); a history is cut at the first request kind the model does not cover (file-set operations, moves between models) — counted in coverage.correspondence. The direct oracle of the property is evaluated on the real library after every request; failing histories are shrunk. Non-trivial = distinct request line.' + " Oracle: " + 'parent/position/model of every reachable element, model-/element-/file-scoped DFS iterators with and without depth limit against the structural preorder, probes through every stale handle.',
+        "trusted_base": ["hand model of element.rs / elementraw.rs / autosarmodel.rs (Model/World*.lean), tied by the correspondence run",
+                         "harness/src/world.rs: interpreter, canonical dump, oracles, shrinking"],
+        "assumptions": ["one model per history in the modelled part; sort comparator assumed a total preorder (C14)"],
+        "timeout": 3600,
+    },
+    "C04": {
+        "property_module": "AutosarVerif.Properties.C04",
+        "modules": ["AutosarVerif.Properties.C04"],
+        "closure": ['AutosarVerif.Properties.C04', 'AutosarVerif.Lemmas.World', 'AutosarVerif.Lemmas.WorldOps'],
+        "scenario": "world",
+        "scenario_args": ['--prop', 'C04'],
+        "rule": 'operation histories on the real library (PROTOCOL.md): `reset`, a template build (packages from the name universe a a1 a10 a1b a2 pkg1 pkg10 b, nested packages, ELEMENTS with several kinds, mixed content, references to existing / dangling / future paths), then 20-60 (thorough up to 200) weighted random requests with mostly-valid and deliberately invalid arguments (stale handles, wrong kinds, bad positions, duplicates, descendants as destination), `dump` after every state-changing request; kinds basic / sort / copy / files. Every request is answered by the real library and by the Lean world model and compared verbatim (dumps include every parent field, attribute, value, comment, local file set, the whole path index and every key of the reverse reference map via hook H1); a history is cut at the first request kind the model does not cover (file-set operations, moves between models) — counted in coverage.correspondence. The direct oracle of the property is evaluated on the real library after every request; failing histories are shrunk. Non-trivial = distinct request line.' + " Oracle: " + "index (hook H1) = set of (path, element) of reachable identifiable elements, no duplicate paths, lookups return that very element, path() = concatenation of ancestors' item names.",
+        "trusted_base": ["hand model of element.rs / elementraw.rs / autosarmodel.rs (Model/World*.lean), tied by the correspondence run",
+                         "harness/src/world.rs: interpreter, canonical dump, oracles, shrinking"],
+        "assumptions": ["one model per history in the modelled part; sort comparator assumed a total preorder (C14)"],
+        "timeout": 3600,
+    },
+    "C05": {
+        "property_module": "AutosarVerif.Properties.C05",
+        "modules": ["AutosarVerif.Properties.C05"],
+        "closure": ['AutosarVerif.Properties.C05', 'AutosarVerif.Lemmas.World', 'AutosarVerif.Lemmas.WorldOps'],
+        "scenario": "world",
+        "scenario_args": ['--prop', 'C05'],
+        "rule": 'operation histories on the real library (PROTOCOL.md): `reset`, a template build (packages from the name universe a a1 a10 a1b a2 pkg1 pkg10 b, nested packages, ELEMENTS with several kinds, mixed content, references to existing / dangling / future paths), then 20-60 (thorough up to 200) weighted random requests with mostly-valid and deliberately invalid arguments (stale handles, wrong kinds, bad positions, duplicates, descendants as destination), `dump` after every state-changing request; kinds basic / sort / copy / files. Every request is answered by the real library and by the Lean world model and compared verbatim (dumps include every parent field, attribute, value, comment, local file set, the whole path index and every key of the reverse reference map via hook H1); a history is cut at the first request kind the model does not cover (file-set operations, moves between models) — counted in coverage.correspondence. The direct oracle of the property is evaluated on the real library after every request; failing histories are shrunk. Non-trivial = distinct request line.' + " Oracle: " + 'every key of the reverse map (hook H1): upgradable reachable referrers = reachable reference elements with that text, each once; check_references = references whose get_reference_target fails.',
+        "trusted_base": ["hand model of element.rs / elementraw.rs / autosarmodel.rs (Model/World*.lean), tied by the correspondence run",
+                         "harness/src/world.rs: interpreter, canonical dump, oracles, shrinking"],
+        "assumptions": ["one model per history in the modelled part; sort comparator assumed a total preorder (C14)"],
+        "timeout": 3600,
+    },
+    "C06": {
+        "property_module": "AutosarVerif.Properties.C06",
+        "modules": ["AutosarVerif.Properties.C06"],
+        "closure": ['AutosarVerif.Properties.C06', 'AutosarVerif.Lemmas.World', 'AutosarVerif.Lemmas.WorldOps'],
+        "scenario": "world",
+        "scenario_args": ['--prop', 'C06'],
+        "rule": 'operation histories on the real library (PROTOCOL.md): `reset`, a template build (packages from the name universe a a1 a10 a1b a2 pkg1 pkg10 b, nested packages, ELEMENTS with several kinds, mixed content, references to existing / dangling / future paths), then 20-60 (thorough up to 200) weighted random requests with mostly-valid and deliberately invalid arguments (stale handles, wrong kinds, bad positions, duplicates, descendants as destination), `dump` after every state-changing request; kinds basic / sort / copy / files. Every request is answered by the real library and by the Lean world model and compared verbatim (dumps include every parent field, attribute, value, comment, local file set, the whole path index and every key of the reverse reference map via hook H1); a history is cut at the first request kind the model does not cover (file-set operations, moves between models) — counted in coverage.correspondence. The direct oracle of the property is evaluated on the real library after every request; failing histories are shrunk. Non-trivial = distinct request line.' + " Oracle: " + 'before/after every successful rename or move: references that designated the element or something below it designate the same element object, all others keep their text.',
+        "trusted_base": ["hand model of element.rs / elementraw.rs / autosarmodel.rs (Model/World*.lean), tied by the correspondence run",
+                         "harness/src/world.rs: interpreter, canonical dump, oracles, shrinking"],
+        "assumptions": ["one model per history in the modelled part; sort comparator assumed a total preorder (C14)"],
+        "timeout": 3600,
+    },
+    "C11": {
+        "property_module": "AutosarVerif.Properties.C11",
+        "modules": ["AutosarVerif.Properties.C11"],
+        "closure": ['AutosarVerif.Properties.C11', 'AutosarVerif.Lemmas.WorldOps'],
+        "scenario": "world",
+        "scenario_args": ['--prop', 'C11'],
+        "rule": 'operation histories on the real library (PROTOCOL.md): `reset`, a template build (packages from the name universe a a1 a10 a1b a2 pkg1 pkg10 b, nested packages, ELEMENTS with several kinds, mixed content, references to existing / dangling / future paths), then 20-60 (thorough up to 200) weighted random requests with mostly-valid and deliberately invalid arguments (stale handles, wrong kinds, bad positions, duplicates, descendants as destination), `dump` after every state-changing request; kinds basic / sort / copy / files. Every request is answered by the real library and by the Lean world model and compared verbatim (dumps include every parent field, attribute, value, comment, local file set, the whole path index and every key of the reverse reference map via hook H1); a history is cut at the first request kind the model does not cover (file-set operations, moves between models) — counted in coverage.correspondence. The direct oracle of the property is evaluated on the real library after every request; failing histories are shrunk. Non-trivial = distinct request line.' + " Oracle: " + 'dump before = dump after for every state-changing request that answers an error.',
+        "trusted_base": ["hand model of element.rs / elementraw.rs / autosarmodel.rs (Model/World*.lean), tied by the correspondence run",
+                         "harness/src/world.rs: interpreter, canonical dump, oracles, shrinking"],
+        "assumptions": ["one model per history in the modelled part; sort comparator assumed a total preorder (C14)"],
+        "timeout": 3600,
+    },
     "C20": {
         "property_module": "AutosarVerif.Properties.C20",
         "modules": ["AutosarVerif.Properties.C20"],
